@@ -26,7 +26,8 @@ MEANS = ["linearMean", "arithmeticMean", "geometricMean", "harmonicMean"]
 
 
 def bounds(tier):
-    return {"cells_per_axis": "1..3" if tier == "quick" else "1..3 (+4 in 1-D/2-D)", "line_alphabet": [0, 1, 2, 4]}
+    return {"grids": U.grid_bounds(tier), "line_alphabet": [0, 1, 2, 4], "value_magnitudes": ["1", "2^-40", "2^60"],
+            "velocity_magnitudes": ["O(1)", "2^-40", "2^-80", "2^50", "5e-324"]}
 
 
 def cases(tier):
